@@ -36,6 +36,7 @@ type step struct {
 	K     string `json:"k"` // call | answer | move | ready | sleep | stop
 	Kind  string `json:"kind,omitempty"` // authn | authz
 	H     string `json:"h,omitempty"`
+	H2    string `json:"h2,omitempty"` // pair: the host of the second, overlapping request
 	Key   string `json:"key,omitempty"`
 	C     string `json:"c,omitempty"`
 	V     string `json:"v,omitempty"`
@@ -65,6 +66,16 @@ type world struct {
 	cl      map[string]*cluster
 	answers map[string]string // cluster/kind/key -> allow|deny|error
 	asked   []string          // clusters asked during the current call
+	hold    map[string]chan struct{} // reviews of these clusters are held in flight until the channel is closed
+}
+
+func (w *world) maybeHold(name string) {
+	w.mu.Lock()
+	ch := w.hold[name]
+	w.mu.Unlock()
+	if ch != nil {
+		<-ch
+	}
 }
 
 // ClientFor implements clusters.ClientProvider
@@ -89,6 +100,7 @@ func (w *world) newCluster(name string) *cluster {
 		w.asked = append(w.asked, name)
 		v := w.answers[name+"/authn/"+tr.Spec.Token]
 		w.mu.Unlock()
+		w.maybeHold(name)
 		out := tr.DeepCopy()
 		switch v {
 		case "allow":
@@ -110,6 +122,7 @@ func (w *world) newCluster(name string) *cluster {
 		w.asked = append(w.asked, name)
 		v := w.answers[name+"/authz/"+key]
 		w.mu.Unlock()
+		w.maybeHold(name)
 		out := sar.DeepCopy()
 		switch v {
 		case "allow":
@@ -150,6 +163,30 @@ func runScenario(t *testing.T, sc scenario) []ev {
 		}
 		authn := tokenwebhook.NewMultiClusterTokenReviewAuthenticator(w, time.Duration(sc.TTLok)*time.Millisecond, time.Duration(sc.TTLfail)*time.Millisecond, nil)
 		authz := authzwebhook.NewMultiClusterSubjectAccessReviewAuthorizer(w, time.Duration(sc.TTLok)*time.Millisecond, time.Duration(sc.TTLfail)*time.Millisecond)
+		doCall := func(kind, host, key string) (string, string) {
+			ctx := request.WithExtraRequestInfo(context.Background(), &request.ExtraRequestInfo{Hostname: host})
+			v, who := "deny", ""
+			if kind == "authn" {
+				resp, ok, err := authn.AuthenticateToken(ctx, key)
+				switch {
+				case err != nil:
+					v = "error"
+				case ok && resp != nil:
+					v, who = "allow", resp.User.GetName()
+				}
+			} else {
+				parts := strings.SplitN(key, "/", 2)
+				attrs := authorizer.AttributesRecord{User: &user.DefaultInfo{Name: parts[0]}, Verb: "impersonate", Resource: "users", Name: parts[1], ResourceRequest: true}
+				d, reason, err := authz.Authorize(ctx, attrs)
+				switch {
+				case err != nil:
+					v = "error"
+				case d == authorizer.DecisionAllow:
+					v, who = "allow", reason
+				}
+			}
+			return v, who
+		}
 		for _, s := range sc.Steps {
 			switch s.K {
 			case "answer":
@@ -177,31 +214,63 @@ func runScenario(t *testing.T, sc scenario) []ev {
 				w.mu.Lock()
 				w.asked = nil
 				w.mu.Unlock()
-				ctx := request.WithExtraRequestInfo(context.Background(), &request.ExtraRequestInfo{Hostname: s.H})
-				v, who := "deny", ""
-				if s.Kind == "authn" {
-					resp, ok, err := authn.AuthenticateToken(ctx, s.Key)
-					switch {
-					case err != nil:
-						v = "error"
-					case ok && resp != nil:
-						v, who = "allow", resp.User.GetName()
-					}
-				} else {
-					parts := strings.SplitN(s.Key, "/", 2)
-					attrs := authorizer.AttributesRecord{User: &user.DefaultInfo{Name: parts[0]}, Verb: "impersonate", Resource: "users", Name: parts[1], ResourceRequest: true}
-					d, reason, err := authz.Authorize(ctx, attrs)
-					switch {
-					case err != nil:
-						v = "error"
-					case d == authorizer.DecisionAllow:
-						v, who = "allow", reason
-					}
-				}
+				v, who := doCall(s.Kind, s.H, s.Key)
 				w.mu.Lock()
 				asked := append([]string{}, w.asked...)
 				w.mu.Unlock()
 				events = append(events, ev{"k": "call", "kind": s.Kind, "h": s.H, "key": s.Key, "t": now(), "v": v, "who": who, "sentTo": asked})
+			case "pair":
+				// two OVERLAPPING requests with the same key: the review the first one causes is held in flight at its cluster while the
+				// second one (another host) is made; then the first review is let go
+				w.mu.Lock()
+				same := w.owner[s.H] == w.owner[s.H2] || s.H == s.H2
+				w.mu.Unlock()
+				if same {
+					// one cluster: its cache may serialise identical reviews behind a mutex, which a virtual-time bubble cannot wait on;
+					// the two requests are made one after the other
+					for _, h := range []string{s.H2, s.H} {
+						w.mu.Lock()
+						w.asked = nil
+						w.mu.Unlock()
+						v, who := doCall(s.Kind, h, s.Key)
+						w.mu.Lock()
+						asked := append([]string{}, w.asked...)
+						w.mu.Unlock()
+						events = append(events, ev{"k": "call", "kind": s.Kind, "h": h, "key": s.Key, "t": now(), "v": v, "who": who, "sentTo": asked})
+					}
+					continue
+				}
+				w.mu.Lock()
+				w.asked = nil
+				c1 := w.owner[s.H]
+				ch := make(chan struct{})
+				if w.hold == nil {
+					w.hold = map[string]chan struct{}{}
+				}
+				w.hold[c1] = ch
+				w.mu.Unlock()
+				type res struct{ v, who string }
+				d1, d2 := make(chan res, 1), make(chan res, 1)
+				go func() { v, who := doCall(s.Kind, s.H, s.Key); d1 <- res{v, who} }()
+				synctest.Wait() // the first request is held in its review, or has been answered without one
+				w.mu.Lock()
+				n0 := len(w.asked)
+				w.mu.Unlock()
+				go func() { v, who := doCall(s.Kind, s.H2, s.Key); d2 <- res{v, who} }()
+				synctest.Wait()
+				w.mu.Lock()
+				asked2 := append([]string{}, w.asked[n0:]...)
+				delete(w.hold, c1)
+				w.mu.Unlock()
+				close(ch)
+				r2 := <-d2
+				r1 := <-d1
+				w.mu.Lock()
+				all := append([]string{}, w.asked...)
+				w.mu.Unlock()
+				asked1 := append(append([]string{}, all[:n0]...), all[n0+len(asked2):]...)
+				events = append(events, ev{"k": "call", "kind": s.Kind, "h": s.H2, "key": s.Key, "t": now(), "v": r2.v, "who": r2.who, "sentTo": asked2, "overlapped": true})
+				events = append(events, ev{"k": "call", "kind": s.Kind, "h": s.H, "key": s.Key, "t": now(), "v": r1.v, "who": r1.who, "sentTo": asked1, "overlapped": true})
 			}
 		}
 		for _, c := range w.cl {
